@@ -92,7 +92,9 @@ Tiny  == FOfRat(1, 100)
 Big   == FOfInt(1000000)
 AllComponents(x) == <<x.re>> \o (IF x.k = "F" THEN <<>> ELSE x.d)
                     \o (IF x.k = "D2" THEN [i \in 1..(Len(x.raw2) * Len(x.raw2)) |-> x.raw2[((i - 1) \div Len(x.raw2)) + 1][((i - 1) % Len(x.raw2)) + 1]] ELSE <<>>)
-Tame(x) == \A i \in 1..Len(AllComponents(x)) : FIsFinite(AllComponents(x)[i]) /\ FLt(FAbs(AllComponents(x)[i]), Big)
+TameBy(x, bound) == \A i \in 1..Len(AllComponents(x)) : FIsFinite(AllComponents(x)[i]) /\ FLt(FAbs(AllComponents(x)[i]), bound)
+Tame(x) == TameBy(x, Big)
+Huge == FOfStr("1e13")
 
 \* ---- comparing a recorded concrete number with a rule result --------------------------------
 CloseTo(x, W, NS) ==
